@@ -57,7 +57,12 @@ impl<R: Read, BufferType: SliceWrapperMut<u8>, Alloc: BrotliAlloc> Read
     for CompressorReaderCustomAlloc<R, BufferType, Alloc>
 {
     fn read(&mut self, buf: &mut [u8]) -> Result<usize, Error> {
-        self.0.read(buf)
+        let ret = self.0.read(buf);
+        if ret.is_err() {
+            // the error value is handed out by move; keep one in stock for the next failure
+            self.0.rearm_error(Error::new(ErrorKind::InvalidData, "Invalid Data"));
+        }
+        ret
     }
 }
 
@@ -189,6 +194,13 @@ impl<ErrType, R: CustomRead<ErrType>, BufferType: SliceWrapperMut<u8>, Alloc: Br
     pub fn get_ref(&self) -> &R {
         &self.input
     }
+    /// Error values are handed out by move; call this after a `read` returned `Err` if the
+    /// reader is going to be used again.
+    pub fn rearm_error(&mut self, invalid_data_error_type: ErrType) {
+        if self.error_if_invalid_data.is_none() {
+            self.error_if_invalid_data = Some(invalid_data_error_type);
+        }
+    }
 }
 impl<ErrType, R: CustomRead<ErrType>, BufferType: SliceWrapperMut<u8>, Alloc: BrotliAlloc>
     CustomRead<ErrType> for CompressorReaderCustomIo<ErrType, R, BufferType, Alloc>
@@ -200,7 +212,8 @@ impl<ErrType, R: CustomRead<ErrType>, BufferType: SliceWrapperMut<u8>, Alloc: Br
              _mb: interface::InputPair,
              _mfv: &mut Alloc| ();
         if buf.is_empty() {
-            // nothing can be delivered; the loop below would never see progress
+            // nothing can be delivered: without this the loop below never ends, because
+            // output_offset stays 0 and the encoder cannot reach the finished state
             return Ok(0);
         }
         let mut output_offset: usize = 0;
